@@ -160,6 +160,10 @@ pub struct MapRunner<K: KeyT, V: ValT> {
     /// elements handed out by extract_if / drain / into_iter during the current op; owned by the
     /// caller, so they must survive an unwind out of the op and be dropped quietly afterwards
     pub stash: Vec<(K, V)>,
+    /// per collection (a, b): only insert/get/get_mut/remove/remove_entry/contains so far, and the
+    /// peak `len()` seen — direct oracle for the churn bound (C13)
+    pub churn_only: [bool; 2],
+    pub peak: [usize; 2],
 }
 
 pub fn contents<K: KeyT, V: ValT>(m: &M<K, V>) -> RefMap {
@@ -343,6 +347,8 @@ impl<K: KeyT, V: ValT> MapRunner<K, V> {
             dead: Default::default(),
             leak_ok: false,
             stash: Vec::new(),
+            churn_only: [true, true],
+            peak: [0, 0],
         }
     }
     fn sel(&mut self, tgt: &str) -> (&mut M<K, V>, &mut M<K, V>) {
@@ -866,6 +872,30 @@ impl<K: KeyT, V: ValT> Runner for MapRunner<K, V> {
         if let Some(why) = self.ledger_step(name, args, &evs, panicked) {
             ret.push_str(&format!(" ORACLE-LEDGER({})", why.replace(' ', "_")));
             self.leak_ok = true;
+        }
+        {
+            let i = if tgt == "a" { 0 } else { 1 };
+            if !matches!(name, "insert" | "get" | "getmut" | "contains" | "remove" | "remove_entry" | "nop" | "iter" | "eq") {
+                self.churn_only[i] = false;
+                if matches!(name, "clone_to_other") {
+                    self.churn_only[1 - i] = false;
+                }
+            }
+            let (len_now, d) = {
+                let m = self.get(tgt);
+                (m.len(), m.verif_dump())
+            };
+            self.peak[i] = self.peak[i].max(before.1).max(len_now);
+            if self.churn_only[i] {
+                let full = hashbrown::verif::bucket_mask_to_capacity(d.bucket_mask);
+                let bound = std::cmp::max(14, 4 * self.peak[i]);
+                if !d.is_singleton && full > bound {
+                    ret.push_str(&format!(
+                        " ORACLE-CHURN(capacity_{}_exceeds_max(14,4*peak={})_under_pure_insert/remove_churn)",
+                        full, self.peak[i]
+                    ));
+                }
+            }
         }
         if let Some(why) = self.capacity_step(tgt, name, args, &ret.clone(), &before, &evs) {
             ret.push_str(&format!(" ORACLE-CAP({})", why.replace(' ', "_")));
